@@ -209,6 +209,23 @@ impl Prop for C20 {
             c.aux = enc_sels(&sels);
             v.push(c);
         }
+        // leading and repeated child combinators (`> > html`, `div > > p`): the grammar accepts them; `A > > B` says that A is
+        // the grandparent of B, a leading chain of k combinators that B has k ancestors, the document node included
+        // (added after a mutation of CombChild on the parentless document node, first judged unreachable, was not)
+        let n = scale(tier, 300, 5000);
+        for _ in 0..n {
+            let html = gen_doc(r, knobs(false)).0;
+            let k = 1 + r.u(7);
+            let a: Option<&str> = if r.p(50) { Some(r.pick(ELEMS)) } else { None };
+            let b: &str = if r.p(20) { "*" } else if r.p(25) { *r.pick(&[&"html", &"body"]) } else { r.pick(ELEMS) };
+            let gt = (0..k).map(|_| *r.pick(&[&">", &" > ", &"> ", &" >"])).collect::<Vec<_>>().join("");
+            let sheet = format!("{}{}{}{{color:{}}}", a.unwrap_or(""), gt, b, hexcol(RULE_COL));
+            let mut cfg = cfg0.clone();
+            cfg.user_css = Some(sheet);
+            let mut c = case(html, cfg, 1 + r.u(60), "child-chains");
+            c.aux = format!("K{}|{}|{}", k, a.unwrap_or("-"), b);
+            v.push(c);
+        }
         v
     }
     fn oracle(&self, c: &Case, o: &Obs) -> Vec<Viol> {
@@ -216,9 +233,16 @@ impl Prop for C20 {
         if c.aux.is_empty() {
             return out;
         }
-        let sels: Vec<Sel> = match c.aux.lines().map(dec_sel).collect::<Option<Vec<_>>>() {
-            Some(s) => s,
-            None => return out,
+        // repeated child combinators: K<k>|<A or ->|<B>
+        let chain_rule: Option<(usize, Option<String>, String)> = c.aux.strip_prefix('K').and_then(|t| {
+            let p: Vec<&str> = t.split('|').collect();
+            if p.len() == 3 { Some((p[0].parse().ok()?, if p[1] == "-" { None } else { Some(p[1].to_string()) }, p[2].to_string())) } else { None }
+        });
+        let sels: Vec<Sel> = if chain_rule.is_some() { vec![] } else {
+            match c.aux.lines().map(dec_sel).collect::<Option<Vec<_>>>() {
+                Some(s) => s,
+                None => return out,
+            }
         };
         let got = match out_colours(o, false) {
             Some(g) => g,
@@ -239,7 +263,22 @@ impl Prop for C20 {
             return out; // text not aligned (C03's business)
         }
         // reference: which elements match any selector of the list
-        let matched: Vec<bool> = (0..f.elems.len()).map(|e| { let p = f.path(e); sels.iter().any(|s| refcss::sel_matches(s, &p)) }).collect();
+        let matched: Vec<bool> = (0..f.elems.len())
+            .map(|e| {
+                if let Some((k, a, b)) = &chain_rule {
+                    let ch = f.chain(e);
+                    let name_ok = b == "*" || f.elems[e].node.name() == b;
+                    // the element has ch.len() ancestors, the document node included; its k-th ancestor is an element for k < ch.len()
+                    name_ok && match a {
+                        Some(a) => *k < ch.len() && f.elems[ch[ch.len() - 1 - *k]].node.name() == a,
+                        None => *k <= ch.len(),
+                    }
+                } else {
+                    let p = f.path(e);
+                    sels.iter().any(|s| refcss::sel_matches(s, &p))
+                }
+            })
+            .collect();
         let want = col(RULE_COL);
         for (i, ((ch, e), (_, cols))) in toks.iter().zip(&got).enumerate() {
             let expected = *e != usize::MAX && f.chain(*e).iter().any(|x| matched[*x]);
